@@ -613,6 +613,20 @@ func (env *TEnv) trCall(x *ECall) (TV, error) {
 			return TV{}, err
 		}
 		return TV{S("i-val", a.T), ty}, nil
+	case "unbox": // unbox(x, T): the non-pointer value of type T boxed in interface value x
+		if len(x.Args) != 2 {
+			return TV{}, fmt.Errorf("unbox(x, T)")
+		}
+		a, err := env.tr(x.Args[0])
+		if err != nil {
+			return TV{}, err
+		}
+		ty, err := eng.evalType(env.pkg, exprTypeText(x.Args[1]))
+		if err != nil {
+			return TV{}, err
+		}
+		k := vc.boxKey(eng.sortOf(ty))
+		return TV{S("select", env.cur.Get(k), S("i-val", a.T)), ty}, nil
 	case "iface": // iface(p): pointer p as an interface value of its dynamic type
 		a, err := env.tr(x.Args[0])
 		if err != nil {
